@@ -1,8 +1,81 @@
 import GraafVerif.Driver.Common
-/-! Driver handlers for property C09 (ops the harness module `ops/c09.rs` emits). -/
-namespace GraafVerif.Driver.H09
-open GraafVerif GraafVerif.Driver
+import GraafVerif.Model.Tarjan
+import GraafVerif.Spec.Tarjan
+/-!
+Driver handlers for property C09 (ops the harness module `ops/c09.rs` emits).
 
-def handlers : List (String × Handler) := []
+  tarjan_components <desc>  =>  [[component] …] | panic
+
+* correspondence: `Tarjan.components` (Model/Tarjan.lean) on the `VGraph` of the description,
+  compared verbatim (components ascending, in emission order);
+* property oracle (PROPFAIL): the VERIFIED checker `Tarjan.sccCheck` (Spec/Tarjan.lean,
+  soundness in Proof/TarjanCheck.lean) on the IMPLEMENTATION's component list.
+-/
+namespace GraafVerif.Driver.H09
+open GraafVerif GraafVerif.Driver GraafVerif.Tarjan
+
+/-- Vertex list of a description, ascending and duplicate free.  `AdjacencyMap::add_arc` admits
+new endpoints, so for `am` the endpoints of the arcs are vertices too (as in `Desc::parse`). -/
+def vertsOf (d : GDesc) : List Nat :=
+  if d.repr == "am" then
+    (d.verts ++ d.arcs.map (·.1) ++ d.arcs.map (·.2)).foldl (fun acc x => Tarjan.insertAsc x acc) []
+  else d.verts
+
+/-- `add_arc` panics on a self-loop (all representations) and on an endpoint `≥ order`
+(all but `am`); `empty(0)` panics. -/
+def validDesc (d : GDesc) : Bool :=
+  d.arcs.all (fun a => a.1 != a.2) &&
+  (d.repr == "am" || (d.order ≥ 1 && d.arcs.all (fun a => a.1 < d.order && a.2 < d.order)))
+
+/-- Rows are built for ids `0..max id`, so sparse ids are covered. -/
+def vgraphOf (d : GDesc) : VGraph :=
+  let vs := vertsOf d
+  let bound := vs.foldl max 0 + 1
+  let rows := rowsOfArcs bound d.arcs
+  ⟨vs, fun u => rows.getD u []⟩
+
+def resToV : Res → List V
+  | .panic => [.a "panic"]
+  | .fuel => [.a "model-out-of-fuel"]
+  | .ret cs => [.l (cs.map V.ofNats)]
+
+def countTag (pre : String) (k : Nat) : String :=
+  pre ++ (if k ≤ 1 then "0-1" else if k ≤ 3 then "2-3" else if k ≤ 8 then "4-8" else ">8")
+
+def hComponents : Handler := fun _ args obs =>
+  match args with
+  | [desc] => do
+    let d ← GDesc.parse desc
+    if !validDesc d then
+      -- building the digraph panics before Tarjan runs; the property does not speak about it
+      pure (classify obs [.a "panic"] none (nt := false) ["invalid-desc"])
+    else
+      let g := vgraphOf d
+      -- the theorems of Thm/C09 are about closed digraphs; a valid description always is
+      if !(decide g.Closed) then none else
+      let model := resToV (components g)
+      let n := g.verts.length
+      let contiguous := g.verts == List.range n
+      let obsCs : Option (List (List Nat)) :=
+        match obs with
+        | [v] => V.listOf? (V.listOf? V.nat?) v
+        | _ => none
+      let propFail : Option String :=
+        match obsCs with
+        | none => some "no-component-list (panic or malformed output)"
+        | some cs => if sccCheck g cs then none else some "not-the-partition-into-strongly-connected-components"
+      let ncomp := (obsCs.getD []).length
+      let largest := (obsCs.getD []).foldl (fun m c => max m c.length) 0
+      -- an arc between two different components: when it is scanned its head is either un-indexed
+      -- or in a finished component (indexed, NOT on the stack: the branch the `on_stack` test is for)
+      let compOf (x : Nat) : Nat := ((obsCs.getD []).findIdx? (fun c => c.contains x)).getD 0
+      let inter := d.arcs.any (fun a => compOf a.1 != compOf a.2)
+      let tags := [ d.repr, if inter then "inter-scc-arcs" else "no-inter-scc-arc", sizeTag n, if contiguous then "contiguous" else "sparse-ids",
+                    countTag "comps=" ncomp, countTag "largest=" largest,
+                    if ncomp == n then "all-singletons" else if ncomp == 1 then "one-scc" else "mixed" ]
+      pure (classify obs model propFail (nt := n ≥ 2 && !d.arcs.isEmpty) tags)
+  | _ => none
+
+def handlers : List (String × Handler) := [("tarjan_components", hComponents)]
 
 end GraafVerif.Driver.H09
